@@ -622,7 +622,9 @@ impl ParserListener for Screen {
             column = self.columns - 1;
         }
 
-        self.cursor.x = column;
+        // A stop may lie beyond the last column (set before the screen was
+        // narrowed, or in the pending-wrap position): never leave the screen.
+        self.cursor.x = u32::min(column, self.columns - 1);
     }
 
     /// Move the cursor to the beginning of the current line.
